@@ -16,3 +16,65 @@ contract(
     raises={},
     returns=Str,
 )
+
+# ---- append / prepend / remove / replace families: the decorated callable (string_filter converts the left value) -------
+ARG = Union(Str, Int, NoneT, TrueT, FalseT)
+TLS = ["liquid2.stringify:to_liquid_string"]
+
+contract(
+    "liquid2.builtin.filters.string:append",
+    props=["C19", "C02"],
+    params={"val": Union(Str, Int, NoneT), "arg": ARG},
+    inline=TLS,
+    post=["implies(isinstance(val, str) and isinstance(arg, str), result == val + arg)",
+          # nil appends nothing, booleans their Liquid spelling - never a Python repr
+          "implies(isinstance(val, str) and arg is None, result == val)",
+          "implies(isinstance(val, str) and arg is True, result == val + 'true')",
+          "implies(isinstance(val, str) and arg is False, result == val + 'false')",
+          "implies(val is None and isinstance(arg, str), result == arg)"],
+    raises={},
+)
+
+contract(
+    "liquid2.builtin.filters.string:prepend",
+    props=["C19", "C02"],
+    params={"val": Union(Str, Int, NoneT), "arg": ARG},
+    inline=TLS,
+    post=["implies(isinstance(val, str) and isinstance(arg, str), result == arg + val)",
+          "implies(isinstance(val, str) and arg is None, result == val)",
+          "implies(isinstance(val, str) and arg is True, result == 'true' + val)",
+          "implies(val is None and isinstance(arg, str), result == arg)"],
+    raises={},
+)
+
+contract(
+    "liquid2.builtin.filters.string:slice_",
+    props=["C19", "C02"],
+    params={"val": Str, "start": Union(Int, Str, Float, NoneT), "length": Union(Int, Str, Float, NoneT)},
+    globals_={"MAX_STR_INT": Int},
+    # strings are shorter than 2**62 characters (a CPython object cannot be larger than sys.maxsize bytes)
+    pre=["MAX_STR_INT == 0 or MAX_STR_INT >= 640", "len(val) < 4611686018427387904"],
+    inline=["liquid2.builtin.filters.string:_slice_arg"],
+    post=[
+        # an offset inside the string and a non-negative length: exactly that window
+        "implies(isinstance(start, int) and isinstance(length, int) and 0 <= start and start <= len(val) and length >= 0 and start + length <= len(val), result == val[start:start + length])",
+        "implies(isinstance(start, int) and isinstance(length, int) and 0 <= start and start <= len(val) and length >= 0 and start + length > len(val), result == val[start:])",
+        # a negative offset counts from the end; a window that would run past the end stops there
+        "implies(isinstance(start, int) and isinstance(length, int) and start < 0 and -start <= len(val) and length >= 0 and start + length < 0, result == val[len(val) + start:len(val) + start + length])",
+        "implies(isinstance(start, int) and isinstance(length, int) and start < 0 and -start <= len(val) and start + length >= 0, result == val[len(val) + start:])",
+        "implies(isinstance(start, int) and isinstance(length, int) and length < 0 and start >= 0, result == '')",
+    ],
+    raises={"LiquidTypeError": None, "LiquidValueError": None},     # floats, nil, non-numeric strings: a Liquid error, not TypeError/ValueError
+)
+
+# ---- first / last: element selection ------------------------------------------------------------------------------------
+for _name, _idx in (("first", "0"), ("last", "-1")):
+    contract(
+        f"liquid2.builtin.filters.array:{_name}",
+        props=["C19", "C02"],
+        params={"obj": Union(ListOf("any"), ListOf("int"), Str, Int, NoneT)},
+        post=[f"implies(isinstance(obj, list) and len(obj) > 0, result == obj[{_idx}])",
+              "implies(isinstance(obj, list) and len(obj) == 0, result is None)",
+              "implies(isinstance(obj, (str, int)) or obj is None, result is None)"],
+        raises={},
+    )
